@@ -598,6 +598,15 @@ func (r *vwRunner) wantMut(row *vwRow) bool {
 	return row.Nominal || row.idx%r.mutEvery == int(vSeed())%r.mutEvery
 }
 
+// muts gives the row's mutation neighbourhood: nominal rows are truncated at EVERY offset, others at a seeded sample
+func (r *vwRunner) muts(row *vwRow, raw []byte) []vwMut {
+	mt := r.maxTrunc
+	if row.Nominal && len(raw) <= 4096 {
+		mt = len(raw)
+	}
+	return vwMutations(raw, r.rng, mt, r.nflip)
+}
+
 // record classifies one delivery.  variant "" = the row as modelled.
 func (r *vwRunner) record(row *vwRow, variant string, res vwResult) {
 	r.nDeliv++
